@@ -157,7 +157,7 @@ fn call(st: &mut State, entry: &str, input: &[u8], cmd: &Value) -> &'static str 
         "sklb" => some_or_fail(physis::skeleton::Skeleton::from_existing(input)),
         "pbd" => match physis::pbd::PreBoneDeformer::from_existing(input) {
             Some(p) => {
-                let ids = [101u16, 201, 301, 401, 9999, 0];
+                let ids = [101u16, 201, 301, 401, 501, 601, 701, 9999, 0];
                 for a in ids {
                     for b in ids {
                         let _ = p.get_deform_matrices(a, b);
